@@ -292,16 +292,16 @@ def simulate(rng, tmp, p):
             # unrelated (never in the VCF) indels 1-7 reference bases next to an SNV, on either side
             extra = []
             for v in vs:
-                if v.kind != "snv" or rng.random() >= p["companions"]:
+                if v.kind not in p.get("companion_kinds", ("snv",)) or rng.random() >= p["companions"]:
                     continue
                 ck, k, side, dd = rng.choice(["ins", "del"]), rng.randint(1, 6), rng.choice([-1, 1]), rng.randint(1, 7)
                 if ck == "ins":
-                    q = v.pos - dd if side < 0 else v.pos + dd
+                    q = v.pos - dd if side < 0 else v.end - 1 + dd
                     if not (5 <= q < L - 5):
                         continue
                     w = Variant(q, refseq[q], refseq[q] + "".join(rng.choice(BASES) for _ in range(k)), "ins")
                 else:
-                    q = v.pos - dd - k if side < 0 else v.pos + dd
+                    q = v.pos - dd - k if side < 0 else v.end - 1 + dd
                     if not (5 <= q and q + k + 1 < L - 5):
                         continue
                     w = Variant(q, refseq[q : q + k + 1], refseq[q], "del")
